@@ -27,7 +27,7 @@
     The theorems need nothing from the left graph nor from [left]: they speak
     about every run that returns.  The proofs are in MergeFacts.v. *)
 
-From Sodg Require Import MergeFacts MergePresent.
+From Sodg Require Import MergeFacts MergePresent XMergeFacts.
 
 (** ** the definitions the statements use, unfolded *)
 
@@ -299,6 +299,111 @@ Check C12_dangling_image_absent :
     /\ op_keys s' = [0; 1].
 Print Assumptions C12_dangling_image_absent.
 
+(** ** (e) the same verdict theorems for the EXTENDED merge of XJoin.v, i.e.
+    for the function the driver actually runs, on arbitrary operands: right
+    graphs that are not trees (so that [join()] happens, any number of
+    times), operands with vacant slots.  No hypothesis on the left graph, on
+    holes or on well-formedness; [hclosed (xg g) right] as before ("everything
+    reachable from [right] is present", necessary: XMergeFacts.ex_present_needed).
+    A reachable vacant slot makes the call panic, so it cannot occur in a call
+    that returns.  Proofs: XMergeFacts.v. *)
+
+Theorem C12x_mapped_keys :
+  forall n s g left right s' m',
+  x_merge_mapped n s g left right = Ok (s', m') ->
+  (forall u, In u (keys m') <-> reach ptrue (xg g) right u)
+  /\ NoDup (keys m')
+  /\ (forall u, In u (keys m') -> u < cap_of (xg g) /\ mem u (xh g) = false).
+Proof. exact x_merge_mapped_keys. Qed.
+
+Check C12x_mapped_keys :
+  forall n s g left right s' m',
+  x_merge_mapped n s g left right = Ok (s', m') ->
+  (forall u, In u (keys m') <-> reach ptrue (xg g) right u)
+  /\ NoDup (keys m')
+  /\ (forall u, In u (keys m') -> u < cap_of (xg g) /\ mem u (xh g) = false).
+Print Assumptions C12x_mapped_keys.
+
+Theorem C12x_projection :
+  forall n s g left right,
+  x_merge n s g left right = (r <- x_merge_mapped n s g left right ;; Ok (fst r, verdict (xg g) (snd r))).
+Proof. exact x_merge_projection. Qed.
+
+Check C12x_projection :
+  forall n s g left right,
+  x_merge n s g left right = (r <- x_merge_mapped n s g left right ;; Ok (fst r, verdict (xg g) (snd r))).
+Print Assumptions C12x_projection.
+
+Theorem C12x_ok_complete :
+  forall n s g left right s',
+  hclosed (xg g) right -> x_merge n s g left right = Ok (s', None) ->
+  forall v, tag (xg g) v <> 0 -> v < cap_of (xg g) -> reach ptrue (xg g) right v.
+Proof. exact x_merge_ok_complete. Qed.
+
+Check C12x_ok_complete :
+  forall n s g left right s',
+  hclosed (xg g) right -> x_merge n s g left right = Ok (s', None) ->
+  forall v, tag (xg g) v <> 0 -> v < cap_of (xg g) -> reach ptrue (xg g) right v.
+Print Assumptions C12x_ok_complete.
+
+Theorem C12x_ok_mapped :
+  forall n s g left right s',
+  hclosed (xg g) right -> x_merge n s g left right = Ok (s', None) ->
+  exists m', x_merge_mapped n s g left right = Ok (s', m')
+             /\ forall v, tag (xg g) v <> 0 -> map_get m' v <> None.
+Proof. exact x_merge_ok_mapped. Qed.
+
+Check C12x_ok_mapped :
+  forall n s g left right s',
+  hclosed (xg g) right -> x_merge n s g left right = Ok (s', None) ->
+  exists m', x_merge_mapped n s g left right = Ok (s', m')
+             /\ forall v, tag (xg g) v <> 0 -> map_get m' v <> None.
+Print Assumptions C12x_ok_mapped.
+
+Theorem C12x_err_names_missed :
+  forall n s g left right s' r,
+  hclosed (xg g) right -> x_merge n s g left right = Ok (s', r) ->
+  (exists v, v < cap_of (xg g) /\ tag (xg g) v <> 0 /\ ~ reach ptrue (xg g) right v) ->
+  exists missed,
+    r = Some missed
+    /\ (forall v, In v missed <->
+                  (v < cap_of (xg g) /\ tag (xg g) v <> 0 /\ ~ reach ptrue (xg g) right v))
+    /\ StronglySorted lt missed.
+Proof. exact x_merge_err_names_missed. Qed.
+
+Check C12x_err_names_missed :
+  forall n s g left right s' r,
+  hclosed (xg g) right -> x_merge n s g left right = Ok (s', r) ->
+  (exists v, v < cap_of (xg g) /\ tag (xg g) v <> 0 /\ ~ reach ptrue (xg g) right v) ->
+  exists missed,
+    r = Some missed
+    /\ (forall v, In v missed <->
+                  (v < cap_of (xg g) /\ tag (xg g) v <> 0 /\ ~ reach ptrue (xg g) right v))
+    /\ StronglySorted lt missed.
+Print Assumptions C12x_err_names_missed.
+
+Theorem C12x_all_reached_ok :
+  forall n s g left right s' r,
+  hclosed (xg g) right -> x_merge n s g left right = Ok (s', r) ->
+  (forall v, v < cap_of (xg g) -> tag (xg g) v <> 0 -> reach ptrue (xg g) right v) ->
+  r = None.
+Proof. exact x_merge_all_reached_ok. Qed.
+
+Check C12x_all_reached_ok :
+  forall n s g left right s' r,
+  hclosed (xg g) right -> x_merge n s g left right = Ok (s', r) ->
+  (forall v, v < cap_of (xg g) -> tag (xg g) v <> 0 -> reach ptrue (xg g) right v) ->
+  r = None.
+Print Assumptions C12x_all_reached_ok.
+
+Theorem C12x_never_out_of_fuel :
+  forall n s g left right, x_merge n s g left right <> OutOfFuel.
+Proof. exact x_merge_fuel. Qed.
+
+Check C12x_never_out_of_fuel :
+  forall n s g left right, x_merge n s g left right <> OutOfFuel.
+Print Assumptions C12x_never_out_of_fuel.
+
 (** ** non-vacuity *)
 
 (** right graph: the tree 0 -a-> 1, 0 -b-> 2 plus the isolated present vertex 5
@@ -338,3 +443,14 @@ Example C12_ex_ok :
   exists s', op_merge 16 ex12_s ex12_h2 0 0 = Ok (s', None)
              /\ op_merge_mapped 16 ex12_s ex12_h2 0 0 = Ok (s', [(2, 2); (1, 1); (0, 0)]).
 Proof. split; [apply hclosedb_hclosed; vm_compute; reflexivity|]. eexists. split; vm_compute; reflexivity. Qed.
+
+(** the extended merge WITH a join: left 0 -a-> 1, 0 -b-> 2, right 0 -a-> 5,
+    0 -b-> 5 (one kid under two names); the proved model answers Unmodelled,
+    the extended one performs the join (left slot 1 becomes vacant) *)
+Example C12x_ex_join_old : op_merge 16 (xg exj_l) (xg exj_r) 0 0 = Unmodelled.
+Proof. exact exj_old. Qed.
+
+Example C12x_ex_join_unreachable :
+  hclosed (xg exj_r2) 0 /\
+  exists x, x_merge 16 exj_l exj_r2 0 0 = Ok (x, Some [3]) /\ xh x = [1] /\ x_keys x = [0; 2; 3].
+Proof. split; [exact exj2_hclosed | exact exj2_result]. Qed.
